@@ -96,6 +96,62 @@ func (c *Conn) walReadUnlock() error {
 	return err
 }
 
+// ResyncWAL re-reads the log the way a SQLite connection does when the
+// wal-index header changed under it (LiteFS rewrites the SHM after its own
+// checkpoints and applies): it adopts the salts, the running checksum and the
+// end of the last committed frame found in the file.
+func (c *Conn) ResyncWAL() error {
+	d := c.D
+	if c.wal == nil {
+		return nil
+	}
+	size, err := c.wal.Size()
+	if err != nil {
+		return err
+	}
+	if size < ref.WALHeaderSize {
+		if d.WalEnd != 0 {
+			d.WalEnd, d.Backfilled, d.WalContent = 0, true, map[uint32][]byte{}
+		}
+		return nil
+	}
+	buf := make([]byte, size)
+	for off := int64(0); off < size; {
+		n, err := c.wal.ReadAt(c.Owner, buf[off:minI64(size, off+1<<17)], off)
+		if err != nil {
+			return err
+		}
+		if n == 0 {
+			break
+		}
+		off += int64(n)
+	}
+	sc := ref.ScanWAL(buf)
+	if !sc.HeaderOK {
+		d.WalEnd, d.Backfilled, d.WalContent = 0, true, map[uint32][]byte{}
+		return nil
+	}
+	if d.W != nil && d.W.Salt1 == sc.Salt1 && d.W.Salt2 == sc.Salt2 && d.WalEnd == sc.CommitEnd {
+		return nil // nothing changed under us
+	}
+	d.W = &ref.WALWriter{BigEndian: sc.BigEndian, PageSize: sc.PageSize, Seq: sc.Seq, Salt1: sc.Salt1, Salt2: sc.Salt2, C0: sc.C0, C1: sc.C1}
+	d.BigEndian = sc.BigEndian
+	d.WalEnd = sc.CommitEnd
+	d.Backfilled = sc.LastCommit == 0
+	d.WalContent = map[uint32][]byte{}
+	for p, b := range sc.Pages {
+		d.WalContent[p] = b
+	}
+	return nil
+}
+
+func minI64(a, b int64) int64 {
+	if a < b {
+		return a
+	}
+	return b
+}
+
 // RunWALTx executes spec on an opened WAL connection.
 func (c *Conn) RunWALTx(spec WALSpec) (res TxResult) {
 	d := c.D
@@ -133,6 +189,11 @@ func (c *Conn) RunWALTx(spec WALSpec) (res TxResult) {
 		}
 		res.NewImage = old
 		return res
+	}
+	if err := c.ResyncWAL(); err != nil {
+		_ = unlockWrite()
+		_ = c.walReadUnlock()
+		return fail("wal-resync", err)
 	}
 
 	// Restart the log if it is fully backfilled (or absent).
